@@ -1,9 +1,9 @@
 package main
 
 import (
-	"strings"
 	"fmt"
 	"sort"
+	"strings"
 	"time"
 
 	tally "github.com/uber-go/tally/v4"
